@@ -26,10 +26,11 @@ THEOREMS = {
             "Spsc.step_inv", "Spsc.step_safe", "Spsc.weak_wLoad_unsafe", "Spsc.weak_rLoad_unsafe",
             "Obligations.bounded_orders_ok", "Obligations.extraction_complete", "Obligations.C01_extracted"],
     "C09": ["Spsc.C09_drained_grants", "Spsc.drained_grants_of_inv", "Spsc.C09_batch_only_stalls",
+            "Uspsc.C02_null_means_at_max_partial", "Uspsc.C02_alloc_within_cap", "Uspsc.C02_throw_iff",
             "Obligations.bounded_orders_ok", "Obligations.bounded_drain_publish", "Obligations.extraction_complete",
             "Obligations.C09_extracted"],
 }
-MODULES = {"C01": ["QuillModel.Props.C01"], "C09": ["QuillModel.Props.C09"]}
+MODULES = {"C01": ["QuillModel.Props.C01"], "C09": ["QuillModel.Props.C09", "QuillModel.Props.C02"]}
 OBLIG = ["QuillModel.Obligations.Queue"]
 
 # which ORACLE lines belong to which property
@@ -142,6 +143,26 @@ def run(prop, tier):
             path = ck.violation("abort_seed%d" % sd, "h1_spsc gen %d %d %d %s\n\n%s" % (sd, ntr, nops, " ".join(pargs), out[-4000:]),
                                 "harness aborted (rc=%d): sanitizer report or crash while driving the real queue" % rc)
         process(out, "gen seed=%d" % sd)
+
+    # C09 also speaks about the unbounded queue ("its maximum capacity for unbounded queues"): drained-state probes
+    # on the real UnboundedSPSCQueue; a refusal with a power-of-two maximum is a C09 violation (a non-power-of-two
+    # maximum is finding F10, listed under C02).
+    if prop == "C09":
+        import props.uqueue as uq
+        oku, ubin, ulog = vlib.build_harness("h1_uspsc", ["h1_uspsc.cpp"], extra_flags=["-fno-access-control"])
+        if not oku:
+            ck.violation("harness_build_u", ulog, "harness h1_uspsc no longer compiles against the current tree", no_input=True)
+        else:
+            upargs = uq.params_args(ex)
+            for sd in seeds:
+                rcu, outu = vlib.sh([ubin, "gen", str(sd), str(ntr // 2), str(nops)] + upargs, env=vlib.ASAN_ENV, timeout=1500)
+                utraces, _ = uq.split_traces(outu)
+                for tr in utraces:
+                    for i, ln in enumerate(tr):
+                        if ln.startswith("ORACLE unbounded-drained-refuses class=pow2-max"):
+                            oracle_hits.append(("unbounded gen seed=%d (replay with: python3 tools/check.py C02 --replay <file>)" % sd, ln, tr, i))
+                probes = sum(1 for tr in utraces for ln in tr if ln.startswith("pw "))
+                stats_lines.append("unbounded seed=%d: %d traces, %d reservations probed" % (sd, len(utraces), probes))
 
     # memory orders observed at run time vs the regex extraction
     if orders_seen:
